@@ -14,8 +14,8 @@ Lemma send_call_rejected : forall cfg fm c script e,
   client_line cfg c = Some (inl e) ->
   send_call cfg fm c script =
   Some (match fm with
-        | Quiet => {| o_ret := RUnit; o_emitted := []; o_handled := [EInvalid] |}
-        | _ => {| o_ret := RError EInvalid; o_emitted := []; o_handled := [] |}
+        | Quiet => {| o_ret := RUnit; o_emitted := []; o_handled := [e] |}
+        | _ => {| o_ret := RError e; o_emitted := []; o_handled := [] |}
         end, script).
 Proof. intros cfg fm c script e H. unfold send_call. rewrite H. reflexivity. Qed.
 
@@ -103,48 +103,61 @@ Proof.
   destruct fm; repeat split.
 Qed.
 
-(* an I/O error is returned only when the sink refused, with exactly that payload *)
+(* an I/O error is returned only when the sink refused, with exactly that payload -- or when the
+   argument is a user-defined value whose conversion returned exactly that I/O error, and then
+   nothing was emitted and no answer of the sink consumed *)
 Theorem io_error_source : forall cfg fm c script o script' k id,
   send_call cfg fm c script = Some (o, script') ->
   (o_ret o = RError (EIo k id) \/ In (EIo k id) (o_handled o)) ->
-  next_outcome script = Refuse k id /\ exists l, client_line cfg c = Some (inr l) /\ o_emitted o = [l].
+  (next_outcome script = Refuse k id /\ exists l, client_line cfg c = Some (inr l) /\ o_emitted o = [l]) \/
+  (k_arg c = AUserErr (EIo k id) /\ o_emitted o = [] /\ script' = script).
 Proof.
   intros cfg fm c script o script' k id H Hr.
   destruct (client_line cfg c) as [[e|l]|] eqn:E.
-  - rewrite (send_call_rejected _ _ _ _ _ E) in H. inversion H; subst.
-    destruct fm; cbn [o_ret o_handled In] in Hr; destruct Hr as [Hr|Hr]; try discriminate; try tauto;
-      destruct Hr; try discriminate; tauto.
+  - right. rewrite (send_call_rejected _ _ _ _ _ E) in H. inversion H; subst.
+    assert (He : e = EIo k id).
+    { destruct fm; cbn [o_ret o_handled In] in Hr; destruct Hr as [Hr|Hr]; try discriminate; try tauto;
+        try (destruct Hr as [Hr|[]]); congruence. }
+    subst e. destruct (client_line_err _ _ _ E) as [He|He]; [discriminate|].
+    destruct fm; repeat split; exact He.
   - rewrite (send_call_accepted _ _ _ _ _ E) in H. inversion H; subst. clear H.
     destruct (next_outcome script) as [|k' id'], fm; cbn [o_ret o_handled In] in Hr;
       destruct Hr as [Hr|Hr]; try discriminate; try tauto;
       try (destruct Hr as [Hr|[]]); inversion Hr; subst;
-      (split; [reflexivity|exists l; split; reflexivity]).
+      (left; split; [reflexivity|exists l; split; reflexivity]).
   - rewrite (send_call_undefined _ _ _ _ E) in H. discriminate.
 Qed.
 
-(* a rejected value: invalid-input error, nothing emitted, no sink outcome consumed *)
+(* a rejected value: exactly the error of the conversion -- the invalid-input error, unless the
+   argument is a user-defined value whose conversion returned another one --, nothing emitted, no sink
+   outcome consumed *)
 Theorem rejected_value : forall cfg fm c script o script' e,
   send_call cfg fm c script = Some (o, script') -> client_line cfg c = Some (inl e) ->
   o_emitted o = [] /\ script' = script /\
   match fm with
-  | Quiet => o_ret o = RUnit /\ o_handled o = [EInvalid]
-  | _ => o_ret o = RError EInvalid /\ o_handled o = []
-  end.
+  | Quiet => o_ret o = RUnit /\ o_handled o = [e]
+  | _ => o_ret o = RError e /\ o_handled o = []
+  end /\
+  (e = EInvalid \/ k_arg c = AUserErr e).
 Proof.
   intros cfg fm c script o script' e H E.
-  rewrite (send_call_rejected _ _ _ _ _ E) in H. inversion H; subst. destruct fm; repeat split.
+  rewrite (send_call_rejected _ _ _ _ _ E) in H. inversion H; subst.
+  pose proof (client_line_err _ _ _ E) as He. destruct fm; repeat split; exact He.
 Qed.
 
 (* an invalid-input error is reported only for a rejected value *)
 Theorem invalid_only_if_rejected : forall cfg fm c script o script',
   send_call cfg fm c script = Some (o, script') ->
   (o_ret o = RError EInvalid \/ In EInvalid (o_handled o)) ->
-  client_line cfg c = Some (inl InvalidInput) /\ o_emitted o = [] /\ script' = script.
+  client_line cfg c = Some (inl EInvalid) /\ o_emitted o = [] /\ script' = script.
 Proof.
   intros cfg fm c script o script' H Hr.
   destruct (client_line cfg c) as [[e|l]|] eqn:E.
-  - rewrite (client_line_err _ _ _ E) in *.
-    rewrite (send_call_rejected _ _ _ _ _ E) in H. inversion H; subst. destruct fm; repeat split.
+  - rewrite (send_call_rejected _ _ _ _ _ E) in H. inversion H; subst.
+    assert (He : e = EInvalid).
+    { destruct fm; cbn [o_ret o_handled In] in Hr; destruct Hr as [Hr|Hr]; try discriminate; try tauto;
+        try (destruct Hr as [Hr|[]]); congruence. }
+    subst e. destruct fm; repeat split; exact E.
   - rewrite (send_call_accepted _ _ _ _ _ E) in H. inversion H; subst. clear H. exfalso.
     destruct (next_outcome script) as [|k' id'], fm; cbn [o_ret o_handled In] in Hr;
       destruct Hr as [Hr|Hr]; try discriminate; try tauto; destruct Hr as [Hr|[]]; discriminate.
@@ -199,13 +212,13 @@ Proof.
   intros cfg c script. unfold send_call. destruct (client_line cfg c) as [[e|l]|]; reflexivity.
 Qed.
 
-(* C02: a value rejected by the conversion emits nothing *)
+(* C02: a value rejected by the conversion emits nothing; the error reported is the conversion's *)
 Theorem reject_no_emit : forall cfg fm c script e,
   to_value (k_kind c) (k_arg c) = Some (inl e) ->
   exists o, send_call cfg fm c script = Some (o, script) /\ o_emitted o = [] /\
     match fm with
-    | Quiet => o_ret o = RUnit /\ o_handled o = [EInvalid]
-    | _ => o_ret o = RError EInvalid /\ o_handled o = []
+    | Quiet => o_ret o = RUnit /\ o_handled o = [e]
+    | _ => o_ret o = RError e /\ o_handled o = []
     end.
 Proof.
   intros cfg fm c script e H.
@@ -223,7 +236,7 @@ Theorem empty_no_emit : forall cfg fm c script v,
     end.
 Proof.
   intros cfg fm c script v H Hc.
-  assert (E : client_line cfg c = Some (inl InvalidInput)) by (rewrite client_line_cases, H, Hc; reflexivity).
+  assert (E : client_line cfg c = Some (inl EInvalid)) by (rewrite client_line_cases, H, Hc; reflexivity).
   rewrite (send_call_rejected _ _ _ _ _ E). eexists. split; [reflexivity|]. destruct fm; repeat split.
 Qed.
 
